@@ -276,3 +276,66 @@ Proof.
   - destruct (lookup t p) as [[|old]|]; try tauto. simpl. rewrite Hdrop. split; intros [H|H]; auto.
   - destruct (lookup t p) as [[|old]|]; try tauto. apply Hdrop.
 Qed.
+
+(* C03 / C04: no conflicted artefact at quiet when the run asks for it *)
+Theorem quiet_no_conflicted cfg l r tr m' :
+  no_conflicted cfg = true ->
+  accept cfg l r tr = inl m' ->
+  forall pre x post, tr = pre ++ x :: post -> o_ev x = EQuiet ->
+    has_conflicted cfg (view (rootL cfg) (o_L x)) = false /\ has_conflicted cfg (view (rootR cfg) (o_R x)) = false.
+Proof.
+  intros Hn Hacc pre x post Heq Hq. apply accept_sound in Hacc.
+  destruct (run_of_forall cfg (step_ok cfg) (fun _ _ _ H => H) _ _ _ Hacc pre x post Heq) as [ma [mb [_ [Hb _]]]].
+  destruct Hb as [[HoL HoR] Hb]. rewrite Hq in Hb. destruct Hb as (_ & _ & _ & _ & Hc & _).
+  rewrite <- HoL, <- HoR. apply Hc. exact Hn.
+Qed.
+
+(* C01: the engine never takes more than step_bound steps after the last user operation without
+   having reported quiet *)
+Theorem steps_bounded cfg l r tr m' :
+  accept cfg l r tr = inl m' ->
+  forall pre x post, tr = pre ++ x :: post -> o_ev x = EStep ->
+    exists ma, run_of cfg (init_state cfg l r) pre ma /\ (quiet ma = false -> S (steps ma) <= step_bound cfg).
+Proof.
+  intros Hacc pre x post Heq Hq. apply accept_sound in Hacc.
+  destruct (run_of_forall cfg (step_ok cfg) (fun _ _ _ H => H) _ _ _ Hacc pre x post Heq) as [ma [mb [Ha [Hb _]]]].
+  destruct Hb as [_ Hb]. rewrite Hq in Hb. destruct Hb as (_ & _ & Hc & _).
+  exists ma. split; assumption.
+Qed.
+
+(* the step counter really counts the engine steps since the last user operation *)
+Fixpoint steps_since_user (tr : list obs) (acc : nat) : nat :=
+  match tr with
+  | [] => acc
+  | x :: r => match o_ev x with
+              | EUser _ _ => steps_since_user r 0
+              | EStep => steps_since_user r (S acc)
+              | _ => steps_since_user r acc
+              end
+  end.
+Lemma steps_counts cfg m tr m' : run_of cfg m tr m' -> steps m' = steps_since_user tr (steps m).
+Proof.
+  intros Hrun. induction Hrun as [m|m x m1 r m2 Hs Hr IH]; [reflexivity|].
+  simpl. destruct Hs as [_ Hs]. destruct (o_ev x) as [s o|s ts| |].
+  - destruct Hs as (_ & _ & _ & H & _). rewrite IH, H. reflexivity.
+  - destruct Hs as (_ & _ & _ & _ & _ & _ & _ & _ & _ & H & _). rewrite IH, H. reflexivity.
+  - destruct Hs as (_ & _ & _ & _ & _ & H & _). rewrite IH, H. reflexivity.
+  - destruct Hs as (_ & _ & _ & _ & _ & _ & _ & _ & H & _). rewrite IH, H. reflexivity.
+Qed.
+
+(* C02, step level: with cov_every_step no engine action ever makes a covered version vanish *)
+Theorem step_nothing_lost cfg l r tr m' :
+  cov_every_step cfg = true ->
+  accept cfg l r tr = inl m' ->
+  forall pre x post s ts, tr = pre ++ x :: post -> o_ev x = EEng s ts ->
+    exists ma, run_of cfg (init_state cfg l r) pre ma /\
+      forall c, In c (cov ma) -> In c (contents (o_L x)) \/ In c (contents (o_R x)).
+Proof.
+  intros Hce Hacc pre x post s ts Heq He. apply accept_sound in Hacc.
+  destruct (run_of_forall cfg (step_ok cfg) (fun _ _ _ H => H) _ _ _ Hacc pre x post Heq) as [ma [mb [Ha [Hb _]]]].
+  destruct Hb as [[HoL HoR] Hb]. rewrite He in Hb. destruct Hb as (_ & _ & _ & _ & _ & _ & Hl & _).
+  exists ma. split; [exact Ha|]. intros c Hc. rewrite <- HoL, <- HoR. specialize (Hl Hce).
+  unfold all_live in Hl. rewrite forallb_forall in Hl. specialize (Hl c Hc).
+  apply orb_true_iff in Hl. unfold mem in Hl.
+  destruct Hl as [H|H]; apply existsb_exists in H as [d [Hd Hd2]]; apply N.eqb_eq in Hd2; subst; auto.
+Qed.
